@@ -51,7 +51,8 @@ def configs(tier, seed):
             sup2.sort()
             p2 = rng.choice(list(partitions(sup2, 2)))
             second = [[list(x) for x in b] for b in p2]
-        out.append({'n': [nr, nc], 'blocks': [[list(x) for x in b] for b in part], 'second': second, 'os': os, 'shape': shape, 'prop': prop})
+        out.append({'n': [nr, nc], 'blocks': [[list(x) for x in b] for b in part], 'second': second, 'os': os, 'shape': shape, 'prop': prop,
+                    'omask': rng.random() < 0.35})
     fixed = [
         # nested bounding boxes: block 0 surrounds block 1
         {'n': [3, 3], 'blocks': [[[0, 0], [2, 2], [0, 2], [2, 0]], [[1, 1]]], 'second': None, 'os': 2, 'shape': [3, 3], 'prop': [3, 3]},
@@ -109,8 +110,17 @@ def run(W, cfg):
         w = lt.Wavefront(lam) * plane
         if second:
             w = w * second[name]
-        o = lt.propagate_dft(w, pixelscale=du, shape=tuple(cfg['shape']), prop_shape=tuple(cfg['prop']), oversample=cfg['os'])
-        res[name] = (o.field, o.intensity)
+        omask = None
+        if cfg.get('omask'):
+            S0 = (cfg['shape'][0] * cfg['os'], cfg['shape'][1] * cfg['os'])
+            omask = rnp.zeros(S0, dtype=int)
+            omask[S0[0] // 2:, : max(1, S0[1] - 1)] = 1          # an off-centre box: the window is clipped, the DFT gets a non-zero shift
+        o = lt.propagate_dft(w, pixelscale=du, shape=tuple(cfg['shape']), prop_shape=tuple(cfg['prop']), oversample=cfg['os'], mask=omask)
+        f1, i1 = o.field, o.intensity
+        f2, i2 = o.field, o.intensity
+        W.ob(f'{name}: reading the field again after the intensity gives the same field', f2, f1)
+        W.ob(f'{name}: reading the intensity twice gives the same intensity', i2, i1)
+        res[name] = (f1, i1)
     S = res['mono'][0].shape
     W.ob('field seg=mono', res['seg'][0], res['mono'][0])
     W.ob('field whole=mono', res['whole'][0], res['mono'][0])
@@ -120,7 +130,7 @@ def run(W, cfg):
     W.ob('intensity seg coherent', res['seg'][1], W.array([[W.abs2(fs[i, j]) for j in range(S[1])] for i in range(S[0])]))
     # and against the defining sum (ties the common value to C02's reference)
     sup = [tuple(x) for b in cfg['blocks'] for x in b]
-    if not cfg['second']:
+    if not cfg['second'] and not cfg.get('omask'):
         wr = optics.centre_window(S[0], cfg['prop'][0] * cfg['os'])
         wc = optics.centre_window(S[1], cfg['prop'][1] * cfg['os'])
         samples = [((r, c), optics.phasor(W, A[r, c], O[r, c], lam)) for r, c in sup]
